@@ -16,7 +16,8 @@
         PING  sendTo('sysA', PING): the child answers with sendParent(PONG)
         LATR  sendTo('sysA', LATER): the child schedules sendParent(LATE, 20 ms) with NO send id
         ESC   sendTo('sysA', ESC): the child escalates an error to the parent
-        GRND  sendTo('sysA', SPG): the child spawns a grandchild with a heartbeat
+        GRND  sendTo('sysA', SPG): the child spawns a grandchild (id g1, systemId sysG) with a heartbeat
+        GSND  sendTo('sysG', GP#n): the grandchild answers its parent with sendTo('sysA', GACK#n)
         KFIN  sendTo('n', FIN): child 'n' reaches its top-level final state
         ADV   30 ms of virtual time
         STOP  parent.stop()
@@ -48,7 +49,7 @@ EXPLANATION = (
 )
 NONTRIVIAL_RULE = "the sequence contains at least one send-like operation"
 BOUNDS = {
-    "actor_seq": "parent machine PM; operation sequences of length N (item label; prefix fixed per item) over 17 operations; 8 addressing forms; tree depth <= 2 (grandchild), fan-out <= 4; both engines (sync: blocking spawns + one non-blocking spawn whose polling runner is a baton-passing coroutine, delayed sends on virtual threads)",
+    "actor_seq": "parent machine PM; operation sequences of length N (item label; prefix fixed per item) over 18 operations; 8 addressing forms; tree depth <= 2 (grandchild), fan-out <= 4; both engines (sync: blocking spawns + one non-blocking spawn whose polling runner is a baton-passing coroutine, delayed sends on virtual threads)",
 }
 ASSUMPTIONS = [
     "virtual time as in C08; the sync engine's non-blocking runner thread (child.start(); while running: time.sleep(0.01)) runs as a coroutine on a real OS thread with baton passing (exactly one of main/poller runs at a time, time.sleep yields to the virtual scheduler): pre-emptive interleavings are outside",
@@ -57,9 +58,9 @@ ASSUMPTIONS = [
 ]
 WALL_BUDGET = {"quick": 900.0, "thorough": 3300.0}
 
-OPS = ["SPA", "SPB", "SPK", "SPN", "SEND", "DSEND", "DSND2", "CANC", "STPA", "FWD", "PING", "LATR", "ESC", "GRND", "KFIN", "ADV", "STOP"]
+OPS = ["SPA", "SPB", "SPK", "SPN", "SEND", "DSEND", "DSND2", "CANC", "STPA", "FWD", "PING", "LATR", "ESC", "GRND", "KFIN", "ADV", "STOP", "GSND"]
 FORMS = ["m:a", "a", "sysA", "kid", "nosuch", "<callable>", "b", "n"]
-SENDLIKE = ("SEND", "DSEND", "DSND2", "FWD", "PING", "LATR", "ESC")
+SENDLIKE = ("SEND", "DSEND", "DSND2", "FWD", "PING", "LATR", "ESC", "GSND")
 CTL: Dict[str, Any] = {}
 _M: Dict[str, Any] = {}
 
@@ -89,14 +90,15 @@ def _machine(eng: int) -> Any:
         env.install()
         gkid = create_machine({
             "id": "g", "initial": "beat",
-            "states": {"beat": {"after": {"10": {"target": "beat", "reenter": True, "actions": ["beat"]}}}},
+            "states": {"beat": {"after": {"10": {"target": "beat", "reenter": True, "actions": ["beat"]}},
+                                "on": {"GP": {"actions": [{"type": "xstate.sendTo", "params": lambda a: {"to": "sysA", "event": {"type": "GACK", "n": a["event"].payload["n"]}}}]}}}},
         }, logic=make_logic(actions={"beat": _kid_beat}))
         env.pin_hashes(gkid)
-        gspawn = {"type": "spawn_blocking_gkid", "params": {"id": "g1"}} if eng == 0 else A.spawn_child("gkid", actor_id="g1")
+        gspawn = {"type": "spawn_blocking_gkid", "params": {"id": "g1", "systemId": "sysG"}} if eng == 0 else A.spawn_child("gkid", actor_id="g1", system_id="sysG")
         kid = create_machine({
             "id": "kid", "initial": "idle",
             "states": {"idle": {"on": {
-                "MSG": {"actions": ["msg"]}, "FWD": {"actions": ["msg"]},
+                "MSG": {"actions": ["msg"]}, "FWD": {"actions": ["msg"]}, "GACK": {"actions": ["msg"]},
                 "PING": {"actions": [A.send_parent("PONG")]},
                 "LATER": {"actions": [A.send_parent("LATE", delay=20)]},
                 "ESC": {"actions": [A.escalate("boom")]},
@@ -134,6 +136,7 @@ def _machine(eng: int) -> Any:
                 "ESC": {"actions": [A.send_to("sysA", "ESC")]},
                 "GRND": {"actions": [A.send_to("sysA", "SPG")]},
                 "KFIN": {"actions": [A.send_to("n", "FIN")]},
+                "GSND": {"actions": [{"type": "xstate.sendTo", "params": lambda a: {"to": "sysG", "event": {"type": "GP", "n": a["event"].payload["n"]}}}]},
                 "PONG": {"actions": ["pong"]},
                 "LATE": {"actions": ["pong"]},
                 "xstate.error.actor.m:a": {"actions": ["pong"]},
@@ -175,10 +178,12 @@ class Ref:
             key = f"auto{self.auto}"
         else:
             key = idv
-        rec = {"key": key, "sys": sysid, "alive": True, "auto": idv is None, "fin": False}
+        rec = {"key": key, "sys": sysid, "alive": True, "auto": idv is None, "fin": False, "grand": False}
         for i, a in enumerate(self.slots):
             if a["key"] == key:
                 a["alive"] = False     # replaced: the previous holder of the id is stopped
+                if a.get("grand"):
+                    self.system.pop("sysG", None)
                 self.slots[i] = rec
                 break
         else:
@@ -188,6 +193,8 @@ class Ref:
 
     def kill(self, a: Dict[str, Any]) -> None:
         a["alive"] = False
+        if a.get("grand"):
+            self.system.pop("sysG", None)    # descendants leave the registry with their parent
         for s, x in list(self.system.items()):
             if x is a:
                 del self.system[s]
@@ -306,6 +313,12 @@ def _run(eng: int, ops: List[str], forms: List[Any]) -> Optional[str]:
                 # (an unresolvable target is dropped at send time and leaves an earlier 'sid' alone)
         elif op == "CANC":
             ref.pending.pop("d1", None)
+        elif op == "GSND":
+            state["seq"] += 1
+            payload = {"n": state["seq"]}
+            g = ref.system.get("sysG")
+            if g is not None and g["alive"] and not g["fin"]:
+                want_now("GACK", state["seq"], [g], False)     # the grandchild's reply lands at its parent (registered as sysA)
         elif op == "STPA":
             cands, _opt = ref.resolve("a")
             if cands:
@@ -327,6 +340,9 @@ def _run(eng: int, ops: List[str], forms: List[Any]) -> Optional[str]:
                     ref.late.append((state["now"] + 0.02, a))
                 elif op == "KFIN":
                     a["fin"] = True
+                elif op == "GRND":
+                    a["grand"] = True
+                    ref.system["sysG"] = a      # the registry entry of the grandchild; it lives and dies with (and answers to) 'a'
         return payload
 
     def check_registry(it: Any) -> Optional[str]:
@@ -336,6 +352,9 @@ def _run(eng: int, ops: List[str], forms: List[Any]) -> Optional[str]:
             running = [a.id for a in state["everyone"] if a.status == "running"]
             if running:
                 return f"actors still running after the parent's stop(): {running}"
+            left = sorted(it.system.get_all())
+            if left:
+                return f"system registry still lists {left} after the parent's stop()"
             return None
         live = ref.live()
         got = sorted(_key_of(i) for i in it._actors)
@@ -349,8 +368,8 @@ def _run(eng: int, ops: List[str], forms: List[Any]) -> Optional[str]:
         for a in live:
             if a["fin"] and a["key"] not in got:
                 ref.kill(a)          # a finished child that the engine has deregistered is no candidate any more
-        sysgot = {k: _key_of(v.id) for k, v in it.system.get_all().items()}
-        syswant = {k: v["key"] for k, v in ref.system.items()}
+        sysgot = {k: (_key_of(v.id) if k != "sysG" else v.id) for k, v in it.system.get_all().items()}
+        syswant = {k: (v["key"] if k != "sysG" else "m:a:g1") for k, v in ref.system.items()}
         if sysgot != syswant:
             return f"system registry {sysgot}, reference {syswant}"
         return None
